@@ -238,8 +238,8 @@ class OffsetOperandStub:
                         return Symbol(token.ctx_start, token.ctx_end, token.representation, is_necessarily_label=True)
                 elif isinstance(token, (Symbol, InstructionPointer)):
                     fixup_active = False
-                else:
-                    assert False  # TODO: really?
+                # Any other token (a number that cannot be a label, e.g. '8.' or
+                # '-1', a character literal, a bracketed expression) is left as is
                 return token
             fixup_label(operand)
 
